@@ -25,11 +25,13 @@ INGEST_COMPONENTS = {
              "Go runtime timers/contexts on the fake clock of testing/synctest"],
     "stub": ["ClickHouse insert face (zz_verif/chfake): decodes every block, rejects non-rectangular blocks like the server, injects per-INSERT/ping/connect faults"],
     "not_simulated": ["net/http server loop and sockets (handlers are entered at router.ServeHTTP)", "QrynWriterPlugin.Initialize (dials sockets, health checks)", "process watchdog os.Exit is defused after the real wiring started it", "pprof /ingest and Elastic routes are only driven with hostile bodies (C05)"],
-    "scheduler": "baton scheduler over AST-inserted yields (sim/cmd/instr): every go statement, mutex operation, blocking channel statement and receive-only select of writer/ and reader/ is a scheduling point decided from the seeded tape",
+    "scheduler": "baton scheduler over AST-inserted yields (sim/cmd/instr): every go statement, mutex operation, blocking channel statement and receive-only select of writer/ and reader/ is a scheduling point decided from the seeded tape; function entries and loop bodies are preemption points, a seeded per-site plan turns about one visit in 5/40/400 (or none) into a scheduling point, more often inside qryn's own critical sections",
+    "runtime": "Go 1.26.8 runtime with two files replaced at build time (go -overlay, tools/mkoverlay.py): runtime.rand - map hash seeds, map iteration offsets, select seeds, math/rand auto-seed - is a sequence re-seeded by the simulator at every run start and every grant; hash keys are constants; goroutine ids are exported for the baton check",
 }
 
 INGEST_TRUST = ["the insert face applies a block iff Do returns nil (or the fault kind is error-after-apply)", "a block whose columns disagree on the row count is rejected",
-                "synctest's fake clock and quiescence detection", "unmanaged stretches (inside dependencies) run under the single-P runtime order"]
+                "synctest's fake clock and quiescence detection", "unmanaged stretches (inside dependencies) run under the single-P runtime order until they re-enter qryn code, where they queue for the baton",
+                "the two overlaid runtime files change where randomness comes from, not what maps, select or the scheduler do"]
 
 
 def ingest(pid, technique, level_text, level_note, rule, probes, stall=False, quick_checks=120, design_ref=""):
@@ -45,7 +47,7 @@ def ingest(pid, technique, level_text, level_note, rule, probes, stall=False, qu
 
 INGEST_RULE = ("a case is one seeded run of the whole writer in a synctest bubble: 1-4 concurrent clients x 1-5 pushes over 13 wire protocols, swarm configuration "
                "(flush interval, queue size, parallel workers, retries, write timeout, cluster mode, time zone, start instant), a per-INSERT/ping/connect fault plan that stops at a heal instant, "
-               "body fragmentation, and a schedule tape consumed by the baton scheduler. Non-trivial = a fault fired or the scheduler had at least one decision with >= 2 runnable goroutines; "
+               "body fragmentation, a schedule tape + seed consumed by the baton scheduler, a preemption rate (off, 1/5, 1/40, 1/400 of the visited function entries and loop bodies) and the seed of the runtime's map-iteration order. Non-trivial = a fault fired or the scheduler had at least one decision with >= 2 runnable goroutines; "
                "distinct = distinct hash of the grant sequence projected to (goroutine role, site) + number of INSERT blocks.")
 
 PROPS = {
@@ -79,7 +81,8 @@ READ_COMPONENTS = {
              "streaming JSON encoders, dbVersion cache, StableSqlxDBWrapper, database/sql connection pool", "prometheus promql engine on the CLokiQueriable storage adapter"],
     "stub": ["ClickHouse query face (zz_verif/sqlfake): database/sql driver that never interprets SQL; serves scripted typed result sets by projection column name; injects connect/query errors, error or stall at row k, latencies"],
     "not_simulated": ["net/http server loop, websocket upgrade of /tail (Tail is driven at the service level)", "the content of SQL (nothing executes it)"],
-    "scheduler": "baton scheduler over AST-inserted yields, as for the writer",
+    "scheduler": "baton scheduler over AST-inserted yields and seeded preemption points, as for the writer",
+    "runtime": "Go 1.26.8 runtime with runtime/rand.go and runtime/alg.go overlaid at build time: map iteration order and select seeds are decided by the scenario seed",
 }
 
 
